@@ -23,6 +23,7 @@ CONSTANTS
   BugZeroCostHeld = FALSE
   SplitOnlyAtEnqueue = FALSE
   DropOnClose = FALSE
+  WriteErrorEndsReader = FALSE
   ForwardInitWin = TRUE
   WithSettings = TRUE
 INVARIANTS NotStarved
